@@ -77,6 +77,7 @@ def trouble(rng, w, o, kind):
     elif kind == 'spawn_fail':
         force_children(rng, w, o)
         w.setdefault('env', {})['spawn_fail'] = ['*']
+        w['env']['spawn_errno'] = rng.choice(['ENOMEM', 'EAGAIN', 'ENOENT', 'EACCES', 'EMFILE'])
     elif kind == 'child_crash_test':
         force_children(rng, w, o)
         tid = rng.choice(list(w['tests']))
